@@ -356,12 +356,9 @@ impl SolvedType {
                 PolytypeDeclaration::InterfaceSelf(_) => true,
                 PolytypeDeclaration::ArrayArg => true,
                 PolytypeDeclaration::ChannelArg => true,
-                PolytypeDeclaration::IntrinsicOperation(op, _) => matches!(
-                    op,
-                    IntrinsicOperation::ArrayPush
-                        | IntrinsicOperation::ArrayPop
-                        | IntrinsicOperation::ArrayLength
-                ),
+                // the element type of every polymorphic intrinsic (array_get, array_set,
+                // channel_read, ...): their code depends on whether it is void
+                PolytypeDeclaration::IntrinsicOperation(..) => true,
                 PolytypeDeclaration::Ordinary(_p) => true, // !p.interfaces.is_empty(),
             },
             Self::InterfaceOutput(_output_type) => true, // !output_type.interfaces.is_empty(),
